@@ -13,6 +13,7 @@ import (
 
 	"github.com/zishang520/engine.io/v2/config"
 	"github.com/zishang520/engine.io/v2/engine"
+	"github.com/zishang520/engine.io/v2/transports"
 	"github.com/zishang520/engine.io/v2/types"
 
 	"verifh/refcodec"
@@ -727,7 +728,24 @@ func TestC12(t *testing.T) {
 		// the engine behind a types.HttpServer listening itself: HTTP/1.1, HTTP/2 (TLS) and HTTP/3 (QUIC) on loopback
 		netLanes(r, r.N(4, 64))
 	}
-	r.Rule("PRNG cases: graceful Close(false) with 0-4 accepted-but-unsent packets on polling (poll pending or absent), WebSocket and WebTransport, optionally with the transport's writer goroutine held at *.send.start while Close runs; silent client (bounded close time on virtual time); a pending poll while the session closes by each cause (incl. the client's own close packet); Server.Close and HttpServer.Close with 1-20 mixed sessions (also with the HttpServer listening itself on loopback TCP and every session's poll outstanding), buffered packets, sessions already waiting in a graceful close, and an upgrade in progress; oracle: all accepted messages before the close packet/teardown, reason 'forced close', close within max(30 s, PI+PT)+PT, pending poll answered 200 with close/noop, exactly one close event per session and an empty table after shutdown; distinct = case signature")
+	if r.Lane == 2%r.Lanes {
+		for k := 0; k < r.N(8, 160); k++ {
+			for _, tr := range []string{"polling", "websocket"} {
+				discard := k%2 == 1
+				key, msg, decided := runC12CloseFromCallback(tr, discard)
+				r.Case(fmt.Sprintf("close-from-send-callback/%s/%v", tr, discard), decided)
+				if decided {
+					r.Obs("closes_from_a_send_callback_real_time", 1)
+				} else {
+					r.Obs("closes_from_a_send_callback_undecided", 1)
+				}
+				if key != "" {
+					r.Violation(key, msg, map[string]any{"lane": "send callback closes the session (real time)", "transport": tr, "discard": discard})
+				}
+			}
+		}
+	}
+	r.Rule("PRNG cases: graceful Close(false) with 0-4 accepted-but-unsent packets on polling (poll pending or absent), WebSocket and WebTransport, optionally with the transport's writer goroutine held at *.send.start while Close runs; silent client (bounded close time on virtual time); a pending poll while the session closes by each cause (incl. the client's own close packet); a send callback that closes its own session (real time, standstill proof rule); Server.Close and HttpServer.Close with 1-20 mixed sessions (also with the HttpServer listening itself on loopback TCP and every session's poll outstanding), buffered packets, sessions already waiting in a graceful close, and an upgrade in progress; oracle: all accepted messages before the close packet/teardown, reason 'forced close', close within max(30 s, PI+PT)+PT, pending poll answered 200 with close/noop, exactly one close event per session and an empty table after shutdown; distinct = case signature")
 	if r.Lane == 1%r.Lanes {
 		quicClose(r, 12, r.N(8, 320), true)
 	}
@@ -811,4 +829,68 @@ func TestC12(t *testing.T) {
 			r.Violation(key, msg, c)
 		}
 	}
+}
+
+// runC12CloseFromCallback: 'send the last message, close once it is out' - a send callback that
+// calls Close(false) - on REAL time (the callback runs on the transport's writer goroutine; a close
+// that waits there for something the writer holds cannot be judged on virtual time, where it
+// freezes the clock).  The message must reach the client before the close packet or teardown, and
+// the session must close exactly once with 'forced close'.  A session still not closed 5 s later
+// is judged by the standstill rule (rig.Standstill: the callback's goroutine blocked at the very
+// same place inside the library 35 s on, process idle), otherwise undecided.
+func runC12CloseFromCallback(transport string, discard bool) (key, msg string, decided bool) {
+	so := &config.ServerOptions{}
+	so.SetPingInterval(time.Hour)
+	so.SetPingTimeout(time.Hour)
+	w := rig.NewWorld(rig.Options{Server: so})
+	defer w.FinishReal()
+	cl, err := w.Connect(rig.ClientCfg{Rev: 4, Transport: transport})
+	if err != nil {
+		return "", "handshake failed: " + err.Error(), false
+	}
+	var sock engine.Socket
+	for try := 0; try < 3000 && sock == nil; try++ {
+		sock = w.Socket(0)
+		time.Sleep(time.Millisecond)
+	}
+	if sock == nil {
+		return "", "no connection event", false
+	}
+	cl.StartReader()
+	time.Sleep(20 * time.Millisecond) // the poll is pending / the reader is up
+	sock.Send(types.NewStringBufferString("last-words"), nil, func(transports.Transport) {
+		sock.Close(discard)
+	})
+	closed := func() []rig.Event { return w.Tap.Of(sock.Id(), "close") }
+	for try := 0; try < 2500 && len(closed()) == 0; try++ {
+		time.Sleep(2 * time.Millisecond)
+	}
+	if len(closed()) == 0 {
+		st := rig.Standstill("runC12CloseFromCallback.func1", 35*time.Second)
+		cl.Stop()
+		if st != "" && len(closed()) == 0 {
+			return "c12-close-from-send-callback-stuck", fmt.Sprintf("%s session: Send(last-words, callback: Close(%v)): 40 s later the session has not closed (state %s) and the callback's goroutine is blocked at the very same place inside the library while the process sits idle: %s", transport, discard, sock.ReadyState(), st), true
+		}
+		return "", "the session did not close within 5 s and no standstill could be proved (" + rig.StandstillWhyNot + ")", false
+	}
+	time.Sleep(30 * time.Millisecond)
+	cl.Stop()
+	evs := closed()
+	if len(evs) != 1 || evs[0].Str != "forced close" {
+		var rs []string
+		for _, e := range evs {
+			rs = append(rs, e.Str)
+		}
+		return "c12-close-reason", fmt.Sprintf("%s session closed from a send callback (Close(%v)): close events %v, want exactly one 'forced close'", transport, discard, rs), true
+	}
+	got := false
+	for _, m := range cl.Messages() {
+		if string(m.P.Data) == "last-words" {
+			got = true
+		}
+	}
+	if !got {
+		return "c12-packets-lost-on-graceful-close:" + transport, fmt.Sprintf("%s session: the message whose send callback closed the session (Close(%v)) never reached the client", transport, discard), true
+	}
+	return "", "", true
 }
